@@ -36,10 +36,12 @@ package influxql
 //@     requires [left_assoc] pr < po
 
 // Operator precedence used by the hand-written parser and by everything that rebuilds trees: AND binds tighter
-// than OR, comparisons tighter than both (the yacc grammar must agree - its tables are generated and outside
+// than OR, comparisons tighter than both, + - | ^ above them and * / % & above those, as `%left` lines of sql.y have it (the yacc grammar must agree - its tables are generated and outside
 // these contracts; see /verif/replays/C12_and_or_precedence_test.go.txt).
 //@ func Token.Precedence
 //@   ensures [and_above_or] (tok == OR ==> result == 1) && (tok == AND ==> result == 2) && (tok == EQ ==> result == 3)
+//@   ensures [arithmetic_classes_as_in_the_grammar] (tok == ADD || tok == SUB || tok == BITWISE_OR || tok == BITWISE_XOR ==> result == 4) && (tok == MUL || tok == DIV || tok == MOD || tok == BITWISE_AND ==> result == 5)
+//@   ensures [comparisons_share_one_class] (tok == NEQ || tok == LT || tok == LTE || tok == GT || tok == GTE || tok == EQREGEX || tok == NEQREGEX || tok == IN || tok == NOTIN ==> result == 3)
 //@   ensures [range] 0 <= result && result <= 6
 //@   assigns nothing
 
